@@ -8,6 +8,7 @@ Scenario tree, built once through the real client API on 3 real storage servers:
                   -> locked  = sub3 (dir) linked with metadata no-write=true, then re-pointed without metadata
     sub additionally holds sc.txt (mutable) and sd (dir), linked through POST ?t=set_children with rw_uri bodies
                   -> imm     = immutable directory -> h.txt (CHK)
+                  -> m_ro.txt = READ-cap of the mutable file m (file-overwriting requests through this path only)
 Read-only entry points: every directory / mutable file through its read-cap and verify-cap, plus
 every path from the root write-cap that passes through `rolink` or `imm`.
 For EVERY read-only entry point x EVERY modifying request of the web API's dispatch tables
@@ -76,6 +77,10 @@ def build(seed):
         h = w(c.upload(Data(lib_imm.payload(82, seed, b"h"), convergence=b"c")))
         imm = w(nm.create_immutable_directory({u"h.txt": (nm.create_from_cap(h.get_uri()), {})}))
         w(root.set_uri(u"imm", None, imm.get_uri()))
+        # a mutable FILE linked into the writeable root by its read-cap only: a request that would overwrite the file
+        # through this path is made through a read-only capability (replacing the LINK - DELETE, PUT ?t=uri - is
+        # the root write-cap's business and is not asked here)
+        w(root.set_uri(u"m_ro.txt", None, m.get_readonly_uri()))
         g.quiesce()
         # two children of `sub` are linked THROUGH THE WEB API (POST ?t=set_children with the body shape that
         # GET ?t=json emits, rw_uri included): what that handler stores must not show the write-caps to a
@@ -199,8 +204,8 @@ def file_requests(caps):
     U = "/uri/"
     body = b"replacement " * 4
     R = []
-    for label in ("m_ro", "m_v", "mm_ro"):
-        p = U + q(caps[label])
+    for label in ("m_ro", "m_v", "mm_ro", "root/m_ro.txt"):
+        p = U + (q(caps[label]) if "/" not in label else q(caps["root"]) + "/m_ro.txt")
         R.append((label + ":PUT-replace", "PUT", p, body, {}))
         R.append((label + ":PUT-offset", "PUT", p + "?offset=2", b"QQ", {}))
         b, h = form({"t": "upload", "file": ("x", body)})
